@@ -7,6 +7,8 @@ import Driver.Descr
 import Driver.TmgrSched
 import Driver.RM
 import Driver.Sched
+import Driver.Exec
+import Driver.Cancel
 open Lean
 
 /-- line protocol: one JSON op per input line, one canonical JSON answer per line -/
@@ -29,5 +31,7 @@ def main (args : List String) : IO UInt32 := do
   | ["tmgrsched"] => loop stdin Driver.TmgrSched.handle; return 0
   | ["rm"] => loop stdin Driver.RM.handle; return 0
   | ["sched"] => loop stdin Driver.Sched.handle; return 0
+  | ["exec"] => loop stdin Driver.Exec.handle; return 0
+  | ["cancel"] => loop stdin Driver.Cancel.handle; return 0
   | ["cause"] => loop stdin Driver.AgentCause.handle; return 0
   | _ => IO.eprintln "usage: rpmodel <suite>"; return 2
